@@ -106,7 +106,7 @@ class HydroTranslator(pyrx.ClassTranslator):
 
     # -- definitions --------------------------------------------------------------------
     def define(self, coq_name, params, stmts, result=None, span=None, plain=False,
-               opaque_arity=None):
+               closures=None):
         """Definition coq_name (e) params := <stmts>; falling off the end yields the
         translation of the expression node `result` (if given)."""
         env = Env()
@@ -115,6 +115,8 @@ class HydroTranslator(pyrx.ClassTranslator):
             n = ty.count("*") + 1 if "*" in ty else 0
             if n:
                 env.v[(p, "arity")] = n
+        for cn, term in (closures or {}).items():
+            env.v[(cn, "closure")] = term
 
         def end(env2):
             if result is None:
@@ -130,14 +132,15 @@ class HydroTranslator(pyrx.ClassTranslator):
                                     pyrx._sha(ast.unparse(span)))
         return "Definition %s %s%s :=\n  %s." % (coq_name, head, args, body)
 
-    def method_def(self, name, types=None, coq_name=None):
+    def method_def(self, name, types=None, coq_name=None, closures=None):
         fn = self.fn.get(name)
         if fn is None:
             raise TranslateError("method %s not found" % name)
         types = types or {}
         params = [(a.arg, types.get(a.arg, "bool" if a.arg in self.booleans else "R"))
                   for a in fn.args.args if a.arg != "self"]
-        return self.define(coq_name or self.an(name), params, fn.body, span=fn)
+        return self.define(coq_name or self.an(name), params, fn.body, span=fn,
+                           closures=closures)
 
     def closure_def(self, method, cname, coq_name, opaque=(), types=None):
         """closure `cname` of `method`; free variables listed in `opaque` (name -> Coq
@@ -465,7 +468,7 @@ def generate_c03(src_h, src_t, src_helpers):
     tt = HydroTranslator(src_t, "HydrodynamicsTemplateModel", TEMPLATE_ATTRS, [], [],
                          prefix="t_", modfuns=modfuns, booleans=["shockWave"])
     tdefs = [tt.method_def("_dxiAndWdv", types={"xiAndW": "R * R"}, coq_name="t_dxiAndWdv")]
-    out = [pyrx.COQ_PRELUDE,
+    out = [pyrx.COQ_PRELUDE + "Local Open Scope bool_scope.\nLocal Open Scope R_scope.\n",
            "(* generated from src/WallGo/hydrodynamics.py, hydrodynamicsTemplateModel.py, "
            "helpers.py *)", tr.header(), tt.header()] + defs + tdefs
     spans = dict(tr.spans)
@@ -554,18 +557,10 @@ def generate_c05(src_h, src_t, src_helpers):
     defs.append(txt)
     tr.facts.append("matchingLTE parameters: " + " ".join(used))
     defs.append(_tail_of_match(tr, tr.fn["matchDeflagOrHyb"]))
-    # the same closure with v+ prescribed (used by findMatching): for the Tn boundary
-    tr2 = HydroTranslator(src_h, "Hydrodynamics", HYDRO_ATTRS, THERMO, ["vpvmAndvpovm"],
-                          modfuns=modfuns, none_spec={"vp": False})
-    tr2.ret_arity = {"vpvmAndvpovm": 2}
-    fn = tr2.fn["matchDeflagOrHyb"]
-    # vp is an ordinary real parameter in this specialisation
-    del tr2.none_spec["vp"]
-    tr2.none_spec_keep = True
-
     tt = HydroTranslator(src_t, "HydrodynamicsTemplateModel", TEMPLATE_ATTRS, [
         Pattern("self.maxAl(100)", "maxAl100", "R"),
-        Pattern("shootingInLTE(_0)", "shootingInLTE", "R -> R"),
+        Pattern("self.solveAlpha(_0)", "solveAlphaRoot", "R -> R"),
+        Pattern("self._shooting(_0, _1)", "shooting", "R -> R -> R"),
         Pattern("root_scalar(shootingInLTE, bracket=[_0, _1], rtol=self.rtol, xtol=self.atol)",
                 "rootLTE", "R -> R -> R"),
     ], ["getVp"], prefix="t_", modfuns=modfuns, booleans=["constraint"])
@@ -573,8 +568,11 @@ def generate_c05(src_h, src_t, src_helpers):
     tdefs.append(tt.method_def("getVp"))
     tdefs += _alpha_plus_formulas(tt)
     tdefs.append(_solve_alpha_head(tt, tt.fn["solveAlpha"]))
-    tdefs.append(tt.method_def("findvwLTE"))
-    out = [pyrx.COQ_PRELUDE,
+    txt, used = tt.closure_def("findvwLTE", "shootingInLTE", "t_shootingInLTE")
+    _expect(used == ["vw"], "shootingInLTE depends on vw only: %r" % used)
+    tdefs.append(txt)
+    tdefs.append(tt.method_def("findvwLTE", closures={"shootingInLTE": "t_shootingInLTE e"}))
+    out = [pyrx.COQ_PRELUDE + "Local Open Scope bool_scope.\nLocal Open Scope R_scope.\n",
            "(* generated from src/WallGo/hydrodynamics.py, hydrodynamicsTemplateModel.py, "
            "helpers.py *)", tr.header(), tt.header()] + defs + tdefs
     spans = dict(tr.spans)
@@ -610,13 +608,30 @@ def findvwlte_facts(src_h):
     _expect(len(hack) == 1, "vmax = vmax - literal after the shock root")
     consts["epsShock"] = pyrx.const_value(hack[0].value.right)
     _expect(consts["epsShock"] is not None, "literal offset after the shock root")
-    tests = [ast.unparse(n.test) for n in ast.walk(fn) if isinstance(n, ast.If)]
+    tests = [ast.unparse(n.test) for n in sorted(
+        (n for n in ast.walk(fn) if isinstance(n, ast.If)), key=lambda n: n.lineno)]
     _expect(tests == ["shock(vmax) > 0", "shockTnuclDiffMax > 0 or not self.success",
                       "shockTnuclDiffMin < 0"], "the three decisions of findvwLTE: %r" % tests)
-    rets = [ast.unparse(n.value) for n in ast.walk(fn) if isinstance(n, ast.Return)
-            and not any(n in ast.walk(d) for d in fn.body if isinstance(d, ast.FunctionDef))]
+    rets = [ast.unparse(n.value) for n in sorted(
+        (n for n in ast.walk(fn) if isinstance(n, ast.Return) and not any(
+            n in ast.walk(d) for d in fn.body if isinstance(d, ast.FunctionDef))),
+        key=lambda n: n.lineno)]
     _expect(rets == ["1", "1", "0", "float(sol.root)"], "return values of findvwLTE: %r" % rets)
     facts["consts"] = {k: str(v) for k, v in consts.items()}
     facts["tests"] = tests
     facts["returns"] = rets
     return facts, consts
+
+
+def generate_lte_facts(src_h):
+    """Coq constants extracted from Hydrodynamics.findvwLTE (offsets of the bracket ends)"""
+    facts, consts = findvwlte_facts(src_h)
+
+    def qlit(fr):
+        return "(%d # %d)" % (fr.numerator, fr.denominator)
+    text = ("From Coq Require Import QArith.\n"
+            "(* generated from Hydrodynamics.findvwLTE: vmax = vJ - lte_epsJ;  after the shock "
+            "root: vmax = root - lte_epsShock *)\n"
+            "Definition lte_epsJ : Q := %s.\nDefinition lte_epsShock : Q := %s.\n" % (
+                qlit(consts["epsJ"]), qlit(consts["epsShock"])))
+    return text, facts
